@@ -8,6 +8,7 @@ import (
 	"sort"
 	"strings"
 	"sync"
+	"sync/atomic"
 	"time"
 
 	"github.com/bfenetworks/bfe/bfe_spdy"
@@ -58,7 +59,7 @@ func c40WriteAhead(r *vkit.Run, idx int, start bool) {
 		ids = append(ids, i)
 	}
 	sort.Ints(ids)
-	r.WriteAhead(map[string]interface{}{"inflight_case_indices": ids, "note": "regenerate with genCase(seed, idx); idx >= the tier's case count: genStaged(seed, idx-count, idx)"})
+	r.WriteAhead(map[string]interface{}{"inflight_case_indices": ids, "note": "regenerate with genCase(seed, idx); idx >= the tier's case count: genStaged(seed, idx-count, idx); idx >= count+count/20+1: genBodyCloseCase(seed, idx-count-count/20-1, idx)"})
 	inflightMu.Unlock()
 }
 
@@ -89,7 +90,13 @@ func c40(r *vkit.Run) {
 		"connection (SYN_STREAM id 0/even/decreasing/reused, DATA on never-opened/half-closed/reset/finished streams and stream 0, late " +
 		"HEADERS/SYN_REPLY, WINDOW_UPDATE overflow); random frame sequences over stream ids 0..9; and, after the seeded mix and one connection at a time, " +
 		"case-count/20+1 staged connections of 6..20 uploads each reset (client RST_STREAM, or one byte beyond Content-Length) right behind the gate that lets " +
-		"its handler start reading the buffered body in 1..100-byte pieces. The client model (written from the " +
+		"its handler start reading the buffered body in 1..100-byte pieces; then 30 (thorough 300) staged body-close connections of 5..10 upload streams, one after the other: " +
+		"0..3000 body bytes, a PING round trip, the handler {closes the body and waits at a gate with the stream open | reads part of the buffered body, closes it and waits | closes the body, answers, returns | " +
+		"answers without reading | panics}, the client waits for that handler state (handler-side flag, only shapes the workload), sends DATA of {1 byte | 2..5000 | all its view of the windows allows}, sometimes a second " +
+		"frame right behind, and a PING as barrier; an episode is counted only if the flag was verified before the DATA went out, and the run is inconclusive if any of the five behaviours, three sizes or the " +
+		"DATA-after-body-close-on-an-open-stream shape never occurred; at the end of such a connection (every stream finished or reset, every handler returned, final PING answered, client never beyond its view of a window) " +
+		"the client's session window 65536 - DATA sent + sum of WINDOW_UPDATE(0) must be back at 65536: bytes the server took but did not deliver are returned to the session window " +
+		"(session-window-not-replenished:data-after-body-close:<behaviour of the first episode behind whose barrier bytes were missing>; above 65536 is the over-replenished check). The client model (written from the " +
 		"SPDY/3.1 draft) classifies each sent frame as must-reject / certainly-accepted / either-way using timing-independent bounds " +
 		"(handlers only progress through gates the script opens); only must-reject frames create obligations (RST_STREAM/GOAWAY/close " +
 		"before the next answered PING, never delivered to a handler), received DATA is checked against the client's own windows and the " +
@@ -148,6 +155,11 @@ func c40(r *vkit.Run) {
 	// busy a handler released by the serve loop only runs once that loop parks).
 	staged := n/20 + 1
 	vkit.Parallel(staged, 1, func(i int) { one(n+i, genStaged(r, i, n+i)) })
+	// Staged body-close cases (c40close.go): DATA sent after the handler closed
+	// the request body / returned / aborted; nothing here depends on a race, so
+	// several connections at a time.
+	nbc := bodyCloseCount(r)
+	vkit.Parallel(nbc, runtime.NumCPU()/2, func(i int) { one(n+staged+i, genBodyCloseCase(r, i, n+staged+i)) })
 	if len(inconclCases) > 0 {
 		r.Extra("inconclusive_cases", inconclCases)
 	}
@@ -164,6 +176,11 @@ func c40(r *vkit.Run) {
 	} {
 		if r.Counter(k) == 0 {
 			r.Inconclusive("the workload never reached outcome " + k)
+		}
+	}
+	for _, k := range bodyCloseOutcomes {
+		if r.Counter(k) == 0 {
+			r.Inconclusive("the body-close cases never reached outcome " + k)
 		}
 	}
 	if inc := r.Counter("cases_inconclusive"); inc*50 > int64(n+staged) {
@@ -191,8 +208,10 @@ func c40Epilogue(r *vkit.Run, base int) {
 	if n := st.SpdyPanicConn.Get(); n != 0 && len(bfe_spdy.VerifPanics()) == 0 {
 		r.Violation("never-panics:SpdyPanicConn", fmt.Sprintf("SpdyPanicConn counter is %d", n), nil)
 	}
-	if n := st.SpdyPanicStream.Get(); n != 0 {
-		r.Violation("never-panics:SpdyPanicStream", fmt.Sprintf("a handler goroutine panicked inside bfe_spdy (SpdyPanicStream=%d); the harness handlers never panic by themselves", n), nil)
+	scripted := atomic.LoadInt64(&scriptedPanics)
+	r.Count("scripted_handler_panics", scripted)
+	if n := st.SpdyPanicStream.Get(); n != scripted {
+		r.Violation("never-panics:SpdyPanicStream", fmt.Sprintf("a handler goroutine panicked inside bfe_spdy (SpdyPanicStream=%d); the harness handlers panicked %d times by themselves (scripted \"panic\" steps of the body-close cases)", n, scripted), nil)
 	}
 	// goroutine census: nothing of bfe_spdy may be left once every connection is over
 	var left int
